@@ -29,8 +29,8 @@ KNOWN = {}
 SPEC_UNITS = ("A", "Angstrom", "Bohr", "au", "fm", "pm", "nm")      # DOMAIN PerAngstrom in XyzText.tla
 INV = ("TypeOK", "TextDenotesTruth")
 PROPS = ("LoadFaithful", "UnitsPreserveDistance")
-ACTIONS = ("Make", "Dump", "Foreign", "Load")
-DEVIATIONS = ("DevInverted", "DevEnsUnits", "DevEmpty", "DevFrames", "DevColumns", "DevDummy")
+ACTIONS = ("Make", "Dump", "DumpLastConformer", "Foreign", "Load")
+DEVIATIONS = ("DevInverted", "DevEnsUnits", "DevEmpty", "DevFrames", "DevColumns", "DevDummy", "DevWide")
 
 
 def tla_set(xs):
@@ -39,7 +39,7 @@ def tla_set(xs):
 
 def mc_cfg(tier, units, dec, seed, dev="DevNone"):
     if dev != "DevNone":
-        pools = {"GeomPool": "<- PoolD", "SmallPool": "<- SmallD", "FilePool": "<- FPoolD"}
+        pools = {"GeomPool": "<- PoolW" if dev == "DevWide" else "<- PoolD", "SmallPool": "<- SmallD", "FilePool": "<- FPoolD"}
         units = [u for u in units if u in ("A", "Angstrom", "pm", "nm")]
     elif tier == "thorough":
         pools = {"GeomPool": "<- PoolT", "SmallPool": "<- SmallT", "FilePool": "<- FPoolT"}
@@ -143,9 +143,12 @@ def trace_cfg(units):
                 invariants=TRACE_INV)
 
 
-def rand_coord(rnd):
+def rand_coord(rnd, world=1):
     r = rnd.random()
-    if r < 0.08:
+    if world != 1:                                          # micro-kiloangstrom: 1e3 .. 2e6 A, the widths of 11 .. 14 characters
+        u = rnd.choice((-1, 1)) * rnd.choice((rnd.randint(1_000_000, 9_999_999), rnd.randint(10_000_000, 99_999_999),
+                                              rnd.randint(100_000_000, 999_999_999), rnd.randint(1_000_000_000, 2_000_000_000)))
+    elif r < 0.08:
         u = 0
     elif r < 0.25:
         u = rnd.randint(-60, 60)
@@ -173,13 +176,14 @@ def rand_els(rnd, n):
     return out
 
 
-def rand_obj(rnd, cls=None, nmax=12):
+def rand_obj(rnd, cls=None, nmax=12, world=None):
     cls = cls or rnd.choice(GEOM_CLASSES + (ENS,))
+    w = world or (1000 if rnd.random() < 0.25 else 1)
     n = rnd.choice((0, 1, 2, 3, rnd.randint(0, nmax)))
     els = rand_els(rnd, n)
     k = rnd.randint(1, 5) if cls == ENS else 1
-    return {"cls": cls, "frames": [[{"el": e, "ty": t, "x": rand_coord(rnd), "y": rand_coord(rnd), "z": rand_coord(rnd)}
-                                    for e, t in els] for _ in range(k)]}
+    return {"cls": cls, "world": w, "frames": [[{"el": e, "ty": t, "x": rand_coord(rnd, w), "y": rand_coord(rnd, w), "z": rand_coord(rnd, w)}
+                                               for e, t in els] for _ in range(k)]}
 
 
 def loads_for(rnd, fmt, unit, homogeneous, all_aliases):
@@ -254,9 +258,9 @@ def bundled_scripts(lab, rnd, units):
         mk = lambda f: [{"el": a["el"], "ty": "dummy" if a["el"] == DUMMY else "regular", "x": {"u": a["x"] * q, "s": 0}, "y": {"u": a["y"] * q, "s": 0}, "z": {"u": a["z"] * q, "s": 0}}
                         for a in f]
         if hom:
-            g = {"cls": ENS, "frames": [mk(f) for f in frames]}
+            g = {"cls": ENS, "world": 1, "frames": [mk(f) for f in frames]}
         else:
-            g = {"cls": "Molecule", "frames": [mk(frames[0])]}
+            g = {"cls": "Molecule", "world": 1, "frames": [mk(frames[0])]}
         script = [{"op": "make", "g": g}, {"op": "dump", "route": "dumps"}] + loads_for(rnd, "xyz", "Angstrom", True, units)
         out.append((f"redump-{name}", script))
     return out
@@ -268,12 +272,15 @@ def scripts(lab, tier, seed, units):
     out = []
     for i in range(n_obj):                                   # one object, written, read back by every entry point
         g = rand_obj(rnd, nmax=12 if tier == "quick" else 30)
-        out.append((f"obj{i}", [{"op": "make", "g": g}, {"op": "dump", "route": rnd.choice(("dumps", "dump"))}]
-                    + loads_for(rnd, "xyz", "Angstrom", True, units)))
+        wr = {"op": "dump", "route": rnd.choice(("dumps", "dump"))}
+        if g["cls"] == ENS and rnd.random() < 0.4:           # one Conformer view writes its frame
+            wr = {"op": "dumpconf", "route": rnd.choice(("dumps", "dump")), "i": rnd.randint(1, len(g["frames"]))}
+        out.append((f"obj{i}", [{"op": "make", "g": g}, wr] + loads_for(rnd, "xyz", "Angstrom", True, units)))
     for i in range(n_stream):                                # several objects written one after another onto one stream
         sc, sig = [], []
+        w = 1000 if rnd.random() < 0.2 else 1               # one length scale per stream
         for _ in range(rnd.randint(2, 4)):
-            g = rand_obj(rnd, nmax=6)
+            g = rand_obj(rnd, nmax=6, world=w)
             sc += [{"op": "make", "g": g}, {"op": "dump", "route": rnd.choice(("dumps", "dump"))}]
             sig += [[a["el"] for a in f] for f in g["frames"]]
         out.append((f"stream{i}", sc + loads_for(rnd, "xyz", "Angstrom", all(x == sig[0] for x in sig), units)))
@@ -294,26 +301,31 @@ LIMIT = 2_100_000_000
 def execute(lab, script):
     """Run a script on the real code; returns the event list (inputs + abstracted observations)."""
     import io
-    obj, stream, text, fmt = None, io.StringIO(), "", "none"
+    obj, stream, text, fmt, world = None, io.StringIO(), "", "none", 1
     evs = []
     for op in script:
         o = op["op"]
         if o == "make":
             obj = lab.build(op["g"])
+            world = op["g"].get("world", 1)
             evs.append({"ev": "make", "g": op["g"]})
         elif o == "make_loaded":                              # the object a real mol2 load returns; the model is told what it holds
             import molli as ml
             obj = lab.cls[op["cls"]].load_mol2(ml.files.ROOT / op["file"])
+            world = 1
             evs.append({"ev": "make", "g": lab.abstract_obj(obj)})
-        elif o == "dump":
-            lab.dump(obj, op["route"], stream)
+        elif o in ("dump", "dumpconf"):
+            if o == "dump":
+                lab.dump(obj, op["route"], stream)
+            else:
+                lab.dump_conformer(obj, op["i"], op["route"], stream)
             text, fmt, obj = stream.getvalue(), "xyz", None
             lines, dec = lab.tokenize_xyz(text, None)
             d = 6 if dec is None else min(dec, 6)
-            lines, _ = lab.tokenize_xyz(text, d)
-            evs.append({"ev": "dump", "route": op["route"], "dec": d, "lines": lines})
+            lines, _ = lab.tokenize_xyz(text, d, world)
+            evs.append({"ev": o, "route": op["route"], "dec": d, "lines": lines, **({"i": op["i"]} if o == "dumpconf" else {})})
         elif o == "foreign":
-            fmt = op["fmt"]
+            fmt, world = op["fmt"], 1
             if "file" in op:
                 import molli as ml
                 text = (ml.files.ROOT / op["file"]).read_text()
@@ -321,7 +333,7 @@ def execute(lab, script):
                 text = (lab.render_xyz if fmt == "xyz" else lab.render_mol2)(op["lines"], op["dec"])
             evs.append({"ev": "foreign", "fmt": fmt, "unit": op["unit"], "dec": op["dec"], "lines": op["lines"]})
         elif o == "load":
-            r = lab.load(text, fmt, op["cls"], op["entry"], op["units"], 1)
+            r = lab.load(text, fmt, op["cls"], op["entry"], op["units"], 1, world)
             e = {"ev": "load", "cls": op["cls"], "entry": op["entry"], "units": op["units"], "out": r["out"]}
             if r["out"] == "ok":
                 flat = [c for f in r["val"] for a in f for c in a[1:]]
